@@ -260,6 +260,9 @@ pub fn load_known() -> Vec<KnownEntry> {
 
 /// Run `f` with panics caught and the default panic message suppressed.
 pub fn quiet_panics() {
+    if std::env::var("VERIF_LOUD").is_ok() {
+        return;
+    }
     std::panic::set_hook(Box::new(|_| {}));
 }
 
